@@ -1334,6 +1334,72 @@ func vMuxUnregister(n, leave int) string {
 	return fmt.Sprintf("muxu %d %d %s", n, leave, strings.Join(cs, ","))
 }
 
+// vMuxSlow: a burst of m bundles for an endpoint with a quick child and a child that needs `busy` per bundle.
+// Every child must be handed every bundle (exactly once), however long it is busy.
+func vMuxSlow(m int, busy time.Duration) string {
+	mux := NewMuxAgent()
+	go func() {
+		for range mux.MessageSender() {
+		}
+	}()
+	eid := bpv7.MustNewEndpointID("dtn://n1/a")
+	kids := []*vPlainAgent{
+		{eid: eid, recv: make(chan Message), send: make(chan Message)},
+		{eid: eid, recv: make(chan Message), send: make(chan Message)},
+	}
+	counts := make([]int, 2)
+	var mu sync.Mutex
+	var wg sync.WaitGroup
+	for i, k := range kids {
+		mux.Register(k)
+		wg.Add(1)
+		go func(i int, k *vPlainAgent) {
+			defer wg.Done()
+			for msg := range k.recv {
+				if _, ok := msg.(BundleMessage); ok {
+					mu.Lock()
+					counts[i]++
+					mu.Unlock()
+					if i == 1 {
+						time.Sleep(busy)
+					}
+				}
+			}
+		}(i, k)
+	}
+	done := make(chan struct{})
+	go func() {
+		defer close(done)
+		for j := 0; j < m; j++ {
+			b, err := bpv7.Builder().CRC(bpv7.CRC32).Source("dtn://src/").Destination(eid).CreationTimestampNow().
+				Lifetime("1h").PayloadBlock([]byte(fmt.Sprintf("slow %d", j))).Build()
+			if err != nil {
+				return
+			}
+			mux.MessageReceiver() <- BundleMessage{Bundle: b}
+		}
+		mux.MessageReceiver() <- ShutdownMessage{}
+	}()
+	select {
+	case <-done:
+	case <-time.After(time.Duration(m+2)*busy + 5*time.Second):
+		return fmt.Sprintf("muxslow %d hang", m)
+	}
+	time.Sleep(50 * time.Millisecond)
+	for _, k := range kids {
+		close(k.send)
+	}
+	waited := make(chan struct{})
+	go func() { wg.Wait(); close(waited) }()
+	select {
+	case <-waited:
+	case <-time.After(time.Duration(m+2)*busy + 5*time.Second):
+	}
+	mu.Lock()
+	defer mu.Unlock()
+	return fmt.Sprintf("muxslow %d %d,%d", m, counts[0], counts[1])
+}
+
 // ---------------------------------------------------------------------------------------------
 
 func vStripObs(line string) (kind string, ops []string) {
@@ -1463,6 +1529,10 @@ func TestVerifC07(t *testing.T) {
 		}
 	}
 	lap("mux-unregister")
+
+	// 4c. a child that stays busy for a long time per bundle (longer than any plausible hand-over time-out)
+	emit(vMuxSlow(3, 1200*time.Millisecond))
+	lap("mux-slow")
 
 	// 5. content
 	vContent(t, emit)
